@@ -72,10 +72,24 @@ def collision_tree(rng, k):
     return [(d, genlib.Xml("protocol", [], None, None, es)) for d, es in files.items()], names
 
 
-def run(ctx: Ctx):
+def systematic_collisions():
+    """every collider name in every directory it may live in (one type per tree)"""
+    dirs = ["", "net", "net/client", "net/server", "map", "pub", "pub/server"]
+    subdirs = {"": {"net", "map", "pub"}, "net": {"client", "server"}, "pub": {"server"}}
+    for n in COLLIDERS:
+        for d in dirs:
+            if n.lower() in subdirs.get(d, set()):
+                continue
+            e = genlib.Xml("struct", [("name", n)], None, None, [genlib.Xml("field", [("name", "a"), ("type", "char")])])
+            yield f"collide-{n}-in-{d or 'root'}", [(d, genlib.Xml("protocol", [], None, None, [e]))], [n]
+
+
+def run(ctx: Ctx, systematic=False):
     rng = ctx.rng
     here = os.path.dirname(os.path.abspath(__file__))
     trees = []
+    if systematic or ctx.tier == "thorough":
+        trees += list(systematic_collisions())
     cat = specgen.catalogue_specs()
     for i in ([0, 3, 5] if not (ctx.tier == "thorough") else range(len(cat))):
         trees.append((f"catalogue-{i}", cat[i][2], []))
@@ -194,5 +208,6 @@ replay = genprops.replay_generic
 
 def oracle_sweep(ctx):
     n0 = len(ctx.violations)
-    run(ctx)
+    ctx.oracle_only = True
+    run(ctx, systematic=True)
     return any(v["kind"] == "property-fails" for v in ctx.violations[n0:])
